@@ -112,6 +112,8 @@ def c01(proj, rep, tier):
     rep.floor('W2 classes with a method option', n, 6)
     n3, n4 = manifold.w3(proj, rep)
     rep.floor('W3 (class, option, field) configurations with a length test', n3, 25)
+    n = manifold.rb1(proj, rep)
+    rep.floor('RB1 radial ball map (both backends)', n, 2)
     n = kdefects.k3(proj, rep, MANIFOLD)
     n = kdefects.k1(proj, rep, MANIFOLD)
     n = twins.tw(proj, rep, MANIFOLD)
@@ -287,7 +289,7 @@ def c20(proj, rep, tier):
 
 
 def dev(proj, rep, tier):
-    print(relabel.r1(proj, rep))
+    print(manifold.rb1(proj, rep))
 
 
 PROPS = {'C01': c01, 'C02': c02, 'C06': c06, 'C08': c08, 'C13': c13, 'C12': c12, 'C15': c15, 'C16': c16, 'C03': c03, 'C04': c04, 'C05': c05, 'C07': c07, 'C19': c19, 'C10': c10, 'C11': c11, 'C18': c18, 'C20': c20, 'DEV': dev}
